@@ -22,14 +22,15 @@ def judge_fit(pages):
         # a block's own bottom padding/border also fits, unless it holds the first content of the page or a line
         # that legitimately overflows
         first_idx = next((i for i, it in enumerate(pg['items']) if it[4] and it[1] <= top + EPS), None)
-        for by, bh, a, b, deco, nlines, orphans, widows, bi in pg.get('blocks', ()):
+        for by, bh, a, b, deco, nlines, orphans, widows, bi, *more in pg.get('blocks', ()):
+            fit_split = bool(more and more[0])
             # only the box's own bottom padding/border is outside: its content ends on the page
             if by + bh > pg['height'] + EPS and deco > 0 and by + bh - deco <= pg['height'] + EPS:
                 inner = [it for it in pg['items'][a:b] if it[4]]
                 if not inner:
                     continue
                 holds_first = first_idx is not None and a <= first_idx < b
-                if holds_first and not (nlines >= orphans + widows and bi == 'auto'):
+                if holds_first and not (nlines >= orphans + widows and bi == 'auto') and not (fit_split and bi == 'auto'):
                     # first content of the page and no earlier legal break inside it: unavoidable
                     continue
                 bad.append(('block-decoration-below-page-bottom',
@@ -76,6 +77,32 @@ def deco_document(rng):
     return html, g.leaves, H
 
 
+def clone_document(rng):
+    """a box-decoration-break: clone box with a bottom border / padding around several paragraphs, split over pages,
+    first on its page or after a filler: every fragment's repeated bottom decoration has to fit when an earlier break
+    between two of its children leaves room for it"""
+    g = widegen.G(rng, set())
+    H = rng.choice([50, 60, 80, 100])
+    parts = []
+    if rng.random() < 0.4:
+        ws = g.words(rng.choice([1, 2]))
+        g.leaf(ws, 'para', ['clone-filler'])
+        parts.append('<p>%s</p>' % '<br>'.join(ws))
+    inner = []
+    for _ in range(rng.choice([4, 5, 6, 8])):
+        ws = g.words(rng.choice([1, 2, 3]))
+        g.leaf(ws, 'para', ['clone'])
+        inner.append('<p style="%s">%s</p>' % (rng.choice(['', '', 'padding-top:5px', 'border-top:2px solid']), '<br>'.join(ws)))
+    st = 'box-decoration-break:clone;border-bottom:%dpx solid;padding-bottom:%dpx' % (
+        rng.choice([4, 10, 15, 20]), rng.choice([0, 0, 5]))
+    if rng.random() < 0.3:
+        st += ';border-top:%dpx solid' % rng.choice([2, 10])
+    parts.append('<div style="%s">%s</div>' % (st, ''.join(inner)))
+    html = ('<style>@page{size:100px %dpx; margin:0} html{font-family:weasyprint;font-size:10px;line-height:10px}'
+            'body{margin:0} p{margin:0}</style>' % H) + ''.join(parts)
+    return html, g.leaves, H
+
+
 def check(run):
     rng = random.Random(run.seed * 7919 + 3)
     thorough = run.tier == 'thorough'
@@ -114,6 +141,7 @@ def check(run):
     # ---- wide monitor (+ long paragraphs with bottom padding/border, split over pages)
     docs = [widegen.document(rng, widegen.ALL_FEATS) for _ in range(2000 if thorough else 350)]
     docs += [deco_document(rng) for _ in range(600 if thorough else 120)]
+    docs += [clone_document(rng) for _ in range(400 if thorough else 100)]
     # tables and multi-column boxes split over several pages, column-span blocks first on a page
     docs += [widegen.split_document(rng) for _ in range(800 if thorough else 200)]
     outs = common.run_impl('impl_wide', 'render_fit', [{'html': h} for h, _, _ in docs], limit=90)
